@@ -51,12 +51,13 @@ def _pipeline_info(pipe, data, context, former_data=None):
         outputs = []
         for _, model, vs in pipe.transformers:
             if all(map(lambda o: isinstance(o, int), vs)):
+                # a previous step may stand for several columns with one name
                 if isinstance(data, OrderedDict):
-                    cols = [_[1] for _ in data.items()]
+                    cols = list(data.items())
+                    new_data = OrderedDict(cols[min(v, len(cols) - 1)] for v in vs)
                 else:
                     cols = list(data)
-                # a previous step may stand for several columns with one name
-                new_data = [cols[min(v, len(cols) - 1)] for v in vs]
+                    new_data = [cols[min(v, len(cols) - 1)] for v in vs]
             else:
                 new_data = OrderedDict()
                 for v in vs:
